@@ -60,7 +60,7 @@ func (c20) Mandatory(tier string) []string {
 		m = append(m, "strace:syscalls-observed", "strace:dry-run:Copy", "strace:dry-run:Move", "strace:dry-run:Remove", "strace:injected:Copy", "strace:injected:Move", "strace:injected:Remove")
 	}
 	return append(m, "fault:Copy:control-copy-cut-short", "fault:Remove:missing-source", "k:0", "k:1", "k:2+", "order:copy-control-after-all-closed", "order:move-control-last",
-		"order:remove-control-last", "hostile:../secret.txt", "hostile:sub/../../secret.txt", "hostile:../../other/o.txt", "hostile:/abs/x", "hostile:sub/inner.txt", "hostile:../", "hostile:..//", "hostile:./", "hostile:/", "hostile:sub/", "hostile:../../other/", "hostile:sub/..", "inotify-events-seen", "dest-has-longer-files-of-the-same-names", "hostile:only-in-checksum-fields", "hostile:control-file-lists-itself", "sequence:harmless-upload-through-the-same-path-first", "handle:reader-entry-point-with-unclean-path", "handle:relative-paths", "handle:control-file-is-a-symlink", "env:GOMAXPROCS=1", "sequence:Copy then Remove", "sequence:Copy then Move", "sequence:Move then Remove", "sequence:Move then Move")
+		"order:remove-control-last", "hostile:../secret.txt", "hostile:sub/../../secret.txt", "hostile:../../other/o.txt", "hostile:/abs/x", "hostile:sub/inner.txt", "hostile:../", "hostile:..//", "hostile:./", "hostile:/", "hostile:sub/", "hostile:../../other/", "hostile:sub/..", "inotify-events-seen", "dest-has-longer-files-of-the-same-names", "hostile:only-in-checksum-fields", "hostile:control-file-lists-itself", "sequence:harmless-upload-through-the-same-path-first", "handle:reader-entry-point-with-unclean-path", "handle:relative-paths", "dest:spelled-with-trailing-slash", "dest:spelled-with-trailing-dot", "dest:spelled-through-a-subdirectory-and-dotdot", "handle:control-file-is-a-symlink", "env:GOMAXPROCS=1", "sequence:Copy then Remove", "sequence:Copy then Move", "sequence:Move then Remove", "sequence:Move then Move")
 }
 
 type c20Case struct {
@@ -274,6 +274,23 @@ func (p c20) run(c *core.C, t *core.T, cs c20Case) {
 			c.Cover("handle:relative-paths")
 		} else {
 			rel = false
+		}
+	}
+	// the destination as callers spell it: with a trailing slash, a trailing "/.", or through a sub-directory and
+	// ".." (tab completion, "$incoming/.."): all name the same directory
+	if fkind != "dest-missing" && fkind != "dest-is-file" {
+		switch cs.Seed % 7 {
+		case 2:
+			destArg += "/"
+			c.Cover("dest:spelled-with-trailing-slash")
+		case 3:
+			destArg += "/."
+			c.Cover("dest:spelled-with-trailing-dot")
+		case 4:
+			if os.Mkdir(filepath.Join(dest, "zz.d"), 0o755) == nil {
+				destArg += "/zz.d/.."
+				c.Cover("dest:spelled-through-a-subdirectory-and-dotdot")
+			}
 		}
 	}
 	if viaReader {
